@@ -80,6 +80,8 @@ RULE_DOC = {
     "R-ZXY-GUARD": "coordinate lookup converts only when z ≤ 31 and x,y < 2^z, else answers no tile",
     "R-REJ-META": "metadata is accepted only through the Value::Object pattern",
     "R-SEEK-AFTER-CODEC": "after a read through a buffering/decoding wrapper the raw position is unspecified: every later read first seeks absolutely",
+    "R-LISTING": "id listing and tile count come from the id map; public wrappers forward unchanged",
+    "R-ADD-OFFSET": "registering a reader-backed tile stores exactly id ↦ (offset, length) and refuses length 0",
     "R-FINDZ": "the zoom search returns a zoom only under the strict test id < end of that zoom's block, over zooms 1..=31, else an error",
     "R-HILBERT-CALL": "both conversions call hilbert_2d with the arguments in order, Variant::Hilbert, and the zoom base 1 + Σ4^i",
 }
@@ -94,7 +96,7 @@ def prop(pid, rules, explanation, decides, does_not_decide, **kw):
 RUNTIME = "run-time equalities over all inputs (round trips, byte equality with independent codecs) — quantify over values; only the named structural necessary conditions are decided"
 
 prop("C01", [rw.r_layout_w, rw.r_fieldmap_w, rr.r_fieldmap_r, rr.r_addr_open, rr.r_exact_tile, rh.r_round, st.r_hashid, st.r_finish_pair, st.r_rle_dep, st.r_order,
-              rs.r_budget, rs.r_leafptr, rs.r_reseek, rd.r_cols_reader, rd.r_cols_writer, rr.r_walk, rr.r_meta0, rh.r_hdr_io, st.r_add_pair, st.r_remove_guard, st.r_lookup, rt.r_factory, rr.r_bounded_read, rr.r_seek_after_codec],
+              rs.r_budget, rs.r_leafptr, rs.r_reseek, rd.r_cols_reader, rd.r_cols_writer, rr.r_walk, rr.r_meta0, rh.r_hdr_io, st.r_add_pair, st.r_remove_guard, st.r_lookup, rt.r_factory, rr.r_bounded_read, rr.r_seek_after_codec, st.r_add_offset],
      "Necessary conditions of the write→read round trip, decided on both twins: header settings are paired field by field in writer and opener (R-FIELDMAP), section "
      "offsets/lengths equal the measured writes (R-LAYOUT-W, affine stream model), the opener rebases entry offsets by tile_data_offset and the lookup reads exactly "
      "(offset,length) (R-ADDR/R-EXACT-TILE), coordinates are rounded to nearest (R-ROUND), contents are laid out once with offsets read before the append "
@@ -110,14 +112,14 @@ prop("C02", [rh.r_hdr_layout, rw.r_hdr_const, rw.r_layout_w, rs.r_budget, rs.r_l
      ["R-HDR-LAYOUT", "R-HDR-CONST", "R-LAYOUT-W", "R-BUDGET", "R-COUNTERS", "R-FINISH-PAIR", "R-ORDER", "R-CLUSTERED", "R-COLS (encoder)", "metadata field is a JSON object map (type fact)"],
      [RUNTIME, "that directories decode with an independent reader", "the spec's lookup procedure on produced files"])
 
-prop("C03", [rr.r_walk, rr.r_addr_open, rr.r_exact_tile, rr.r_meta0, rr.r_fieldmap_r, rr.r_find, rd.r_cols_reader, rr.r_rej_meta, rr.r_bounded_read, rh.r_hdr_io, rt.r_factory, rr.r_seek_after_codec],
+prop("C03", [rr.r_walk, rr.r_addr_open, rr.r_exact_tile, rr.r_meta0, rr.r_fieldmap_r, rr.r_find, rd.r_cols_reader, rr.r_rej_meta, rr.r_bounded_read, rh.r_hdr_io, rt.r_factory, rr.r_seek_after_codec, st.r_add_offset],
      "The opener, directory walker, decoder and lazy fetch are checked path by path: runs are expanded for the entry whose offset/length are stored, recursion uses "
      "leaf base + entry offset and the entry's length, leaf/tile dispatch is on run_length == 0, tile addresses are rebased by tile_data_offset, metadata length 0 "
      "yields an empty object without reads, settings are reported from the header fields, single-directory lookup uses !leaf && range.contains.",
      ["R-WALK", "R-ADDR", "R-EXACT-TILE", "R-META0", "R-FIELDMAP (reader)", "R-FIND", "R-COLS/R-DELTA/R-OFFRULE (decoder)"],
      [RUNTIME, "correctness on every foreign layout at run time"])
 
-prop("C04", [st.r_hashid, st.r_add_pair, st.r_remove_guard, st.r_lookup, st.r_rej_empty, rr.r_exact_tile, st.r_finish_pair, st.r_rle_dep, rr.r_addr_open, rr.r_walk, st.r_order, rd.r_cols_writer, rd.r_cols_reader, rw.r_layout_w, rs.r_leafptr],
+prop("C04", [st.r_hashid, st.r_add_pair, st.r_remove_guard, st.r_lookup, st.r_rej_empty, rr.r_exact_tile, st.r_finish_pair, st.r_rle_dep, rr.r_addr_open, rr.r_walk, st.r_order, rd.r_cols_writer, rd.r_cols_reader, rw.r_layout_w, rs.r_leafptr, st.r_listing, st.r_add_offset],
      "Structural necessary conditions each store mutator must satisfy for the store to behave like a map: add removes the old binding and performs exactly one "
      "consistent insert into each map, remove drops bytes only under an emptiness test made after removing the id, lookup resolves the requested id and answers None "
      "for unknown ids, and content identity is not decided by the 64-bit hash alone (R-HASHID: known finding with a concrete colliding pair).",
@@ -219,7 +221,7 @@ prop("C18", [rw.r_layout_w, rw.r_abs, rs.r_reseek, rs.r_budget, rw.r_commit_orde
      ["R-REL", "R-LAYOUT-W", "R-ABS", "R-NO-WRITE-BEFORE-P", "R-RESEEK"],
      ["that reading from P yields the archive (run-time)"])
 
-prop("C19", [st.r_rej_empty, rd.r_len0_err, rd.r_cols_reader, rd.r_cols_writer, rr.r_rej_meta, rt.r_factory],
+prop("C19", [st.r_rej_empty, rd.r_len0_err, rd.r_cols_reader, rd.r_cols_writer, rr.r_rej_meta, rt.r_factory, st.r_add_offset],
      "Each documented rejection is a guard that dominates the effect it protects: the emptiness test precedes every store mutation and its true branch is an error "
      "exit without mutation; `length == 0` is an error exit before the store/emission in decoder and encoder; metadata is accepted only through the Value::Object "
      "pattern and both metadata readers end in that check; Unknown ⇒ Err in all four factories and codecs are built nowhere else.",
